@@ -1,8 +1,16 @@
 """C08 — IntegratorLearner: converged integrals are right and match Gonnet's algorithm 4.   level: other (partial)
 
-proof:  lean/AdaptiveProofs/Props/C08.lean — real-analysis skeleton only (Mathlib intervalIntegral): partition +
-        per-interval validity of the estimator (HYPOTHESIS, unproved) => |∫f − Σ igral_I| ≤ Σ err_I, and with the
-        done() disjunct  ≤ max(err, tol·|igral|).  Nothing about Gonnet's estimator or floating point is proved.
+proof:  lean/AdaptiveProofs/Props/C08.lean —
+        (1) real-analysis skeleton (Mathlib intervalIntegral): partition + per-interval validity of the estimator
+            (HYPOTHESIS, unproved) => |∫f − Σ igral_I| ≤ Σ err_I, and with the done() disjunct ≤ max(err, tol·|igral|).
+            Nothing about Gonnet's estimator or floating point is proved.
+        (2) the exact coefficient tables of adaptive/learner/integrator_coeffs.py: harness/integ_tables.py dumps them from
+            the LIVE module into lean/AdaptiveModel/Gen/QuadTables.lean on every run; kernel computations prove
+            legendre(34) orthogonal with ∫P_n² = 2/(2n+1) and equal to Bonnet's recursion, xi antisymmetric / nested /
+            sorted, newton(n) = (X²−1)U_{n−2}/2^{n−2} vanishing on the Clenshaw–Curtis nodes, the exact integrals behind
+            b_def.  A change of the source changes the generated file and breaks these theorems.
+tables: read-back of the generated file against the live module, and a python oracle of the same statements on the live
+        module (exact with Fractions where the code is exact, loose tolerances for the floating-point tables).
 diff:   sequential feeding of the real IntegratorLearner against adaptive/tests/algorithm_4.py for the same number
         of evaluations (protocol of adaptive/tests/test_cquad.py: n times ask(1)+tell), igral/err to 1e-7 relative;
         the reference is also stopped after a bounded number of loops, which compares intermediate states.
@@ -19,9 +27,17 @@ from fractions import Fraction
 
 import numpy as np
 
-from harness import core
+from harness import core, integ_tables
 
 MODULES = ["AdaptiveProofs.Props.C08"]
+# lemma modules of the coefficient-table theorems (imported by Props/C08.lean; named here so that they are explicit build targets)
+TABLE_MODULES = ["AdaptiveProofs.Lemmas.QuadTablesPoly", "AdaptiveProofs.Lemmas.QuadTablesLeg",
+                 "AdaptiveProofs.Lemmas.QuadTablesXi", "AdaptiveProofs.Lemmas.QuadTablesBdef"]
+TABLE_THEOREMS = ["legendre_table_orthogonal", "legendre_table_orthogonal_integral", "inner_is_integral", "inner_is_integ_pmul",
+                  "legendre_table_recurrence", "legendre_table_eq_classical", "legendre_table_recurrence_eval",
+                  "xi_antisymmetric", "xi_nested", "xi_sorted", "xi_shape", "xi_bits_exact",
+                  "newton_table_is_cc_nodal_poly", "newton_table_vanishes_on_nodes", "xi_newton_residual",
+                  "bdef_integrals_exact", "quad_constants"]
 FAMILIES = ["poly", "exp", "osc", "lorentz", "gauss", "sqrt_sing", "kink", "jump"]
 RANGES = [(-1.0, 1.0), (0.0, 1.0), (0.0, 3.5), (-2.0, 5.0)]
 SLACK = 1e-13
@@ -237,6 +253,253 @@ def diff_case(arg):
     return res
 
 
+# ---------------------------------------------------------------------------- coefficient tables
+_LEAN_DEF = r"def {name} : List \(List (?:Int|Nat)\) := \[\n(.*?)\]\n\n"
+
+
+def _read_generated():
+    """parse the integer tables back out of Gen/QuadTables.lean (independent of the renderer's data structures)"""
+    import re
+    text = integ_tables.QUAD_TARGET.read_text()
+    out = {}
+    for name in ("legNum", "newtonNum", "xiBits", "xiNum", "bdefNum"):
+        m = re.search(_LEAN_DEF.format(name=name), text, re.S)
+        out[name] = [[int(t) for t in row.strip().rstrip(",").strip("[]").split(",") if t.strip()]
+                     for row in m.group(1).split("\n")] if m else None
+    for name in ("legDen", "newtonDen", "bdefDen", "ns"):
+        m = re.search(rf"def {name} : List Nat := \[(.*?)\]", text)
+        out[name] = [int(t) for t in m.group(1).split(",")] if m else None
+    for name in ("xiDen", "ndivMax", "epsBits", "hintBits", "minSepBits"):
+        m = re.search(rf"def {name} : Nat := (\d+)", text)
+        out[name] = int(m.group(1)) if m else None
+    return out
+
+
+def tables_readback(corr):
+    """generated file  ~  live module: every number of the file, read back and compared with the value the live module
+    computes now (Fractions exactly, doubles by bit pattern)."""
+    g = _read_generated()
+    m = integ_tables.load_live()
+    rows = []  # (label, from file, from live module)
+    leg = m.legendre(integ_tables.N_LEGENDRE)
+    rows.append(("legendre: number of rows", len(g["legNum"] or []), len(leg)))
+    for n, p in enumerate(leg):
+        got = [Fraction(a, g["legDen"][n]) for a in g["legNum"][n]] if g["legNum"] and n < len(g["legNum"]) else None
+        rows.append((f"legendre[{n}]", got, [Fraction(c) for c in p]))
+    rows.append(("ns", g["ns"], [int(n) for n in m.ns]))
+    for r, n in enumerate(m.ns):
+        got = [Fraction(a, g["newtonDen"][r]) for a in g["newtonNum"][r]] if g["newtonNum"] and r < len(g["newtonNum"]) else None
+        rows.append((f"newton({n})", got, [Fraction(float(c)) for c in m.newton(n)]))
+        gx = g["xiNum"][r] if g["xiNum"] and r < len(g["xiNum"]) else None
+        rows.append((f"xi[{r}] exact", [Fraction(a, g["xiDen"]) for a in gx] if gx is not None else None,
+                     [Fraction(float(v)) for v in m.xi[r]]))
+        rows.append((f"xi[{r}] bits", g["xiBits"][r] if g["xiBits"] and r < len(g["xiBits"]) else None,
+                     [core.f2b(v) for v in m.xi[r]]))
+    legs = m.legendre(max(int(n) for n in m.ns) + 1)
+    for r, n in enumerate(m.ns):
+        gb = g["bdefNum"][r] if g["bdefNum"] and r < len(g["bdefNum"]) else None
+        a_ = list(map(Fraction, m.newton(n)))
+        rows.append((f"scalar_product(newton({n}), P_k)", [Fraction(v, g["bdefDen"][r]) for v in gb] if gb is not None else None,
+                     [Fraction(m.scalar_product(a_, b_)) for b_ in legs[: n + 1]]))
+    rows.append(("ndiv_max", g["ndivMax"], int(m.ndiv_max)))
+    rows.append(("eps bits", g["epsBits"], core.f2b(m.eps)))
+    rows.append(("hint bits", g["hintBits"], core.f2b(m.hint)))
+    rows.append(("min_sep bits", g["minSepBits"], core.f2b(m.min_sep)))
+    for label, a, b in rows:
+        corr.cases += 1
+        corr.ops += len(a) if isinstance(a, list) else 1
+        corr.distinct.add(label)
+        corr.count("table:" + label.split("[")[0].split("(")[0].split(":")[0].strip())
+        if a != b and len(corr.disagreements) < 50:
+            corr.disagreements.append({"case": corr.cases - 1, "index": 0, "line": label, "impl": repr(b)[:400],
+                                       "model": repr(a)[:400], "lines": None, "meta": {"table": label}})
+    return corr
+
+
+def _frs(l):
+    return ",".join(str(Fraction(c)) for c in l) or "-"
+
+
+def quad_cases(seeds):
+    """lock-step cases  QuadPoly (Lean, through the driver)  ~  live integrator_coeffs: the table rows as the theorems read
+    them, `legRec` ~ legendre, `ccNodal` ~ newton, `inner` ~ scalar_product on seeded rational polynomials.  Exact: rationals
+    cross the protocol as `num/den` in lowest terms."""
+    m = integ_tables.load_live()
+    cases = []
+    ns = [int(n) for n in m.ns]
+    lines, impl = [], []
+    for n, p in enumerate(m.legendre(integ_tables.N_LEGENDRE)):
+        lines.append(f"quad leg {n}")
+        impl.append(_frs(p))
+    for r, n in enumerate(ns):
+        lines += [f"quad newton {r}", f"quad xi {r}", f"quad xibits {r}"]
+        x = _frs([float(v) for v in m.xi[r]])
+        impl += [_frs([float(c) for c in m.newton(n)]), x, x]
+    legs = m.legendre(max(ns) + 1)
+    for r, n in enumerate(ns):
+        a = list(map(Fraction, m.newton(n)))
+        lines.append(f"quad bdef {r}")
+        impl.append(_frs([m.scalar_product(a, b) for b in legs[: n + 1]]))
+    cases.append({"lines": lines, "impl": impl, "meta": {"kind": "tables"}})
+    lines, impl = [], []
+    big = m.legendre(48)
+    for n, p in enumerate(big):
+        lines.append(f"quad legrec {n}")
+        impl.append(_frs(p))
+    for n in (2, 3, 5, 9, 17, 33, 65):
+        try:
+            cf = m.newton(n)
+        except (ValueError, AssertionError):
+            continue
+        lines.append(f"quad ccnodal {n}")
+        impl.append(_frs([float(c) for c in cf]))
+    cases.append({"lines": lines, "impl": impl, "meta": {"kind": "recursions"}})
+    for seed in seeds:
+        rng = random.Random(f"quad-{seed}")
+        lines, impl = [], []
+        for _ in range(8):
+            def poly():
+                kind = rng.randrange(4)
+                if kind == 0:
+                    return list(rng.choice(big))
+                deg = rng.randrange(0, 14)
+                if kind == 1:
+                    return [Fraction(rng.randrange(-9, 10)) for _ in range(deg + 1)]
+                return [Fraction(rng.randrange(-50, 51), rng.choice([1, 2, 3, 4, 5, 7, 8, 16, 35])) * rng.choice([0, 1, 1, 1])
+                        for _ in range(deg + 1)]
+            a, b = poly(), poly()
+            lines.append(f"quad sp {_frs(a)} {_frs(b)}")
+            impl.append(str(Fraction(m.scalar_product(a, b))))
+        cases.append({"lines": lines, "impl": impl, "meta": {"kind": "scalar_product", "seed": seed}})
+    return cases
+
+
+def tables_oracle():
+    """The statements of the table theorems evaluated on the LIVE module (python; exact where the code is exact).
+    -> (failures, stats)"""
+    warnings.simplefilter("ignore")
+    m = integ_tables.load_live()
+    fails, stats = [], {}
+
+    def fail(clause, detail, **replay):
+        fails.append({"clause": clause, "signature": f"C08.tables.{clause}", "detail": detail,
+                      "replay": {"part": "tables", "clause": clause, **replay}})
+
+    # (a) orthogonality of legendre(34), with the module's own exact scalar_product
+    leg = m.legendre(integ_tables.N_LEGENDRE)
+    npairs = 0
+    for i, pi in enumerate(leg):
+        for j in range(i, len(leg)):
+            v = m.scalar_product(pi, leg[j])
+            want = Fraction(2, 2 * i + 1) if i == j else 0
+            npairs += 1
+            if v != want:
+                fail("legendre_orthogonal", f"scalar_product(legendre(34)[{i}], legendre(34)[{j}]) = {v} , expected {want}", i=i, j=j)
+                break
+        else:
+            continue
+        break
+    stats["legendre_pairs"] = npairs
+    # (b) Bonnet
+    for n in range(1, len(leg) - 1):
+        lhs = [(n + 1) * c for c in leg[n + 1]]
+        rhs = [Fraction(0)] * (n + 2)
+        for k, c in enumerate(leg[n]):
+            rhs[k + 1] += (2 * n + 1) * c
+        for k, c in enumerate(leg[n - 1]):
+            rhs[k] -= n * c
+        if lhs != rhs:
+            fail("legendre_recurrence", f"(n+1)P_(n+1) != (2n+1) x P_n - n P_(n-1) at n={n}", n=n)
+            break
+    # (c) xi
+    ns = tuple(int(n) for n in m.ns)
+    xi = [np.asarray(x, float) for x in m.xi]
+    for r, x in enumerate(xi):
+        n = ns[r]
+        if len(x) != n or x[0] != -1.0 or x[-1] != 1.0:
+            fail("xi_shape", f"xi[{r}] has {len(x)} nodes from {x[0]!r} to {x[-1]!r}, expected {n} nodes from -1 to 1", r=r)
+        elif not all(x[k] == -x[n - 1 - k] for k in range(n)):
+            fail("xi_antisymmetric", f"xi[{r}] is not antisymmetric: {[(k, float(x[k]), float(x[n-1-k])) for k in range(n) if x[k] != -x[n-1-k]][:3]}", r=r)
+        elif not all(x[k] < x[k + 1] for k in range(n - 1)):
+            fail("xi_sorted", f"xi[{r}] is not strictly increasing", r=r)
+        elif max(abs(x[k] + math.cos(k * math.pi / (n - 1))) for k in range(n)) > 4e-16:
+            fail("xi_nodes", f"xi[{r}] deviates from -cos(k pi/(n-1)) by {max(abs(x[k] + math.cos(k * math.pi / (n - 1))) for k in range(n)):.3e}", r=r)
+        if r + 1 < len(xi) and not (len(xi[r + 1]) == 2 * len(x) - 1 and all(x[k] == xi[r + 1][2 * k] for k in range(len(x)))):
+            fail("xi_nested", f"the nodes of rule {r} are not the even-index nodes of rule {r + 1}", r=r)
+    # (d) newton(n) = (x^2-1) U_(n-2) / 2^(n-2), exact integers / powers of two
+    for r, n in enumerate(ns):
+        u0, u1 = [Fraction(1)], [Fraction(0), Fraction(2)]
+        for _ in range(n - 2):
+            nxt = [Fraction(0)] + [2 * c for c in u1]
+            for k, c in enumerate(u0):
+                nxt[k] -= c
+            u0, u1 = u1, nxt
+        want = [Fraction(0)] * (len(u0) + 2)
+        for k, c in enumerate(u0):
+            want[k + 2] += c
+            want[k] -= c
+        want = [c / 2 ** (n - 2) for c in want]
+        got = [Fraction(float(c)) for c in m.newton(n)]
+        if got != want:
+            fail("newton_nodal", f"newton({n}) is not (x^2-1) U_{n-2}(x)/2^{n-2}: first differing coefficient "
+                                 f"{next(((k, str(a), str(b)) for k, (a, b) in enumerate(zip(got, want)) if a != b), ('length', len(got), len(want)))}", n=n)
+    # b_def = sqrt((2k+1)/2) * exact integral (bit-exact recomputation from the dumped exact integrals), and it reproduces newton(n)
+    legs = m.legendre(max(ns) + 1)
+    nb = 0
+    for r, n in enumerate(ns):
+        a = list(map(Fraction, m.newton(n)))
+        b_live = np.asarray(m.b_def[r], float)
+        rec = [float(np.sqrt((2 * k + 1) / 2) * m.scalar_product(a, legs[k])) for k in range(n + 1)]
+        nb += len(rec)
+        if len(b_live) != n + 1 or [core.f2b(v) for v in b_live] != [core.f2b(v) for v in rec]:
+            fail("b_def", f"b_def[{r}] is not sqrt((2k+1)/2) * scalar_product(newton({n}), P_k) bit for bit", r=r)
+            continue
+        xs = np.linspace(-1, 1, 41)
+        val = m.calc_V(xs, n + 1) @ b_live
+        ref = np.polyval(np.asarray(m.newton(n), float)[::-1], xs)
+        if not np.all(np.abs(val - ref) <= 1e-9 * (1 + np.abs(ref))):
+            fail("b_def", f"sum_k b_def[{r}][k] * orthonormal P_k(x) deviates from newton({n})(x) by {float(np.max(np.abs(val - ref))):.3e}", r=r)
+    stats["b_def_entries"] = nb
+    # floating-point linear algebra, loose: V V_inv = 1, shift matrices
+    for r, n in enumerate(ns):
+        e = float(np.max(np.abs(np.asarray(m.V[r]) @ np.asarray(m.V_inv[r]) - np.eye(n))))
+        stats[f"max|V V_inv - 1|[{r}]"] = e
+        if not e <= 1e-9:
+            fail("V_inv", f"max |V[{r}] V_inv[{r}] - 1| = {e:.3e}", r=r)
+    rs = np.random.RandomState(12345)
+    c = rs.uniform(-1, 1, ns[3])
+    x3 = xi[3]
+    for name, sh in (("T_left", -1), ("T_right", 1)):
+        T = np.asarray(getattr(m, name))
+        e = float(np.max(np.abs(m.calc_V(x3, ns[3]) @ (T @ c) - m.calc_V((x3 + sh) / 2, ns[3]) @ c)))
+        stats[f"shift residual {name}"] = e
+        if not e <= 1e-8:
+            fail("shift_matrix", f"{name} does not map the coefficients of p(x) to those of p((x{sh:+d})/2): residual {e:.3e}", name=name)
+    # the tables of the reference implementation adaptive/tests/algorithm_4.py (which builds its own): "match algorithm 4"
+    _, a4 = _imports()
+    for name, ref, live in (("ns", tuple(a4.n), ns), ("hint", a4.hint, m.hint), ("min_sep", a4.min_sep, m.min_sep),
+                            ("ndiv_max", a4.ndiv_max, m.ndiv_max), ("eps", a4.eps, m.eps)):
+        if not ref == live:
+            fail("tables_vs_algorithm_4", f"{name} = {live!r}, algorithm_4.py has {ref!r}", name=name)
+    worst = 0.0
+    for name, ref, live in (("xi", a4.xi, m.xi), ("b_def", a4.b_def, m.b_def), ("V", a4.V, m.V), ("V_inv", a4.V_inv, m.V_inv),
+                            ("T_left", [a4.T_lr[0]], [m.T_left]), ("T_right", [a4.T_lr[1]], [m.T_right]),
+                            ("alpha", [a4.alpha], [m.alpha]), ("gamma", [a4.gamma], [m.gamma])):
+        for r, (x, y) in enumerate(zip(ref, live)):
+            x, y = np.asarray(x, float), np.asarray(y, float)
+            if x.shape != y.shape:
+                fail("tables_vs_algorithm_4", f"{name}[{r}] has shape {y.shape}, algorithm_4.py has {x.shape}", name=name)
+                break
+            d = float(np.max(np.abs(x - y) / (1e-3 + np.abs(x)))) if x.size else 0.0
+            worst = max(worst, d)
+            if not d <= 1e-9:
+                fail("tables_vs_algorithm_4", f"{name}[{r}] deviates from the table of algorithm_4.py by {d:.3e} (relative, floor 1e-3)", name=name)
+                break
+    stats["max relative deviation from algorithm_4 tables"] = worst
+    stats["failures"] = len(fails)
+    return fails, stats
+
+
 # ---------------------------------------------------------------------------- driver
 # Families whose deviations on the unchanged /repo are counted in the evidence instead of failing (see `downgraded` there).
 CLOSED_COUNTED = set()
@@ -248,8 +511,41 @@ DIFF_DROP_NOTE = ("algorithm_4 tests `points[1]-points[0] < points[0]*min_sep` w
 
 
 def run(ctx):
-    proof = core.prove(MODULES, leanchecker=ctx.thorough)
+    # 0. dump the exact coefficient tables of the live module (the tie of the table theorems to the source)
+    dump = {"ok": True, "changed": None, "error": None, "hashes": None}
+    try:
+        data = integ_tables.collect_quad()
+        dump["changed"] = integ_tables.generate_quad(data=data)
+        dump["hashes"] = integ_tables.quad_hashes(data)
+    except integ_tables.DumpError as e:
+        dump.update(ok=False, error=str(e))
+    proof = core.prove(MODULES, extra_targets=TABLE_MODULES, leanchecker=ctx.thorough)
+    if not dump["ok"]:
+        proof.build_ok = False
+        proof.broken.insert(0, f"integ_tables: the coefficient tables could not be dumped: {dump['error']}")
     failures = []
+    # 0b. read-back of the generated file and the python oracle of the table statements on the live module
+    tcorr = core.Corr("Gen/QuadTables.lean read back ~ live integrator_coeffs (exact Fractions / bit patterns)")
+    tstats = {}
+    if dump["ok"]:
+        try:
+            tables_readback(tcorr)
+        except Exception as e:  # noqa: BLE001
+            tcorr.error = f"read-back failed: {type(e).__name__}: {e}"
+        try:
+            tfails, tstats = tables_oracle()
+            failures += tfails
+        except Exception as e:  # noqa: BLE001  (a table of the wrong shape/type: never seen on the unchanged tree)
+            failures.append({"clause": "tables_oracle_exception", "signature": "C08.tables.oracle_exception",
+                             "detail": f"{type(e).__name__}: {e}", "replay": {"part": "tables", "clause": "exception"}})
+    else:
+        tcorr.error = dump["error"]
+    if ctx.thorough and proof.ok:
+        rc, out, err, dt = core.sh(["lake", "env", "leanchecker", *TABLE_MODULES[1:]], cwd=core.LEAN, timeout=3000)
+        dump["leanchecker_table_modules"] = {"rc": rc, "wall_s": round(dt, 1), "tail": (out + err)[-300:]}
+        if rc != 0:
+            proof.broken.append("leanchecker rejected the table computations: " + (out + err)[-300:])
+            proof.build_ok = False
     draws = ctx.n(40, 400)
     cap = ctx.n(8000, 20000)
     items = [(fam, ctx.rng.randrange(1 << 30), cap) for fam in FAMILIES for _ in range(draws)]
@@ -306,9 +602,21 @@ def run(ctx):
                 counted.append(rec)
             else:
                 (counted if r["name"] in DIFF_COUNTED else failures).append(rec)
+    # lock-step (drawn last from ctx.rng: the seeds of the closed-form / differential cases above are unaffected)
+    # 0c. lock-step of the list-polynomial functions / table rows (Lean, through the driver) with the live functions
+    qcorr = core.Corr("QuadPoly (legP/newtonP/xiRow/bdefRow, legRec, ccNodal, inner) ~ live legendre/newton/xi/scalar_product (exact rationals)")
+    try:
+        qcases = quad_cases([ctx.rng.randrange(1 << 30) for _ in range(ctx.n(40, 600))])
+        for c in qcases:
+            qcorr.count("kind:" + c["meta"]["kind"], len(c["lines"]))
+        core.lockstep(qcorr, qcases, shards=ctx.n(2, 8))
+    except integ_tables.DumpError as e:
+        qcorr.error = str(e)
+    except Exception as e:  # noqa: BLE001  (the live functions raised / returned something that is not a number)
+        qcorr.error = f"building the cases from the live module failed: {type(e).__name__}: {e}"
     ndone = sum(s["done"] for s in fam_stats.values())
     return core.conclude(
-        ctx, proof, [], failures, level="other",
+        ctx, proof, [tcorr, qcorr], failures, level="other",
         rule="closed form: 8 families (poly deg<=12, exp, sin, Lorentzian, Gaussian, inverse-sqrt end-point singularity with "
              "f(a)=inf, kink, jump) x seeded parameters, ranges (-1,1),(0,1),(0,3.5),(-2,5), tol log-uniform 1e-10..1e-3, "
              "delivery sequential (ask 1..40, tell all) or shuffled+partial (tell a random half..all of the outstanding points "
@@ -317,9 +625,12 @@ def run(ctx):
              "3..300 loops, learner fed one point at a time for the same number of evaluations",
         samples=[{k: r[k] for k in ("family", "mode", "tol", "end", "npoints", "ratio")} for r in closed[:: max(1, len(closed) // 5)]],
         evaluations=len(closed) + len(diff), distinct=ndone + sum(s["both_value"] + s["both_divergent"] for s in dstats.values()),
-        explanation="The Lean part is the real-analysis skeleton only (integ_global_bound_partial and corollaries): adjacent "
-                    "pieces + per-piece validity of the local estimate imply the global bound; validity of Gonnet's estimator, "
-                    "the coefficient tables and floating point are NOT proved and are covered by the two test oracles here.",
+        explanation="The Lean part is (1) the real-analysis skeleton (integ_global_bound_partial and corollaries): adjacent "
+                    "pieces + per-piece validity of the local estimate imply the global bound; (2) the exact coefficient tables "
+                    "(legendre(34), newton(n), xi, the exact integrals behind b_def, scalar constants), dumped from the live "
+                    "module on every run and proved by kernel computation. Validity of Gonnet's estimator, the floating-point "
+                    "tables (V, V_inv, T_left/right, alpha, gamma, the sqrt factor of b_def) and floating point are NOT proved "
+                    "and are covered by the test oracles here.",
         trusted=core.COMMON_TRUSTED + [
             "closed-form integrals evaluated with math.erf/atan/expm1/cos and exact rationals for polynomials",
             "adaptive/tests/algorithm_4.py as the reference implementation of Gonnet's algorithm 4",
@@ -330,7 +641,13 @@ def run(ctx):
         extra={"closed_form": fam_stats, "differential": dstats, "differential_drop_note": DIFF_DROP_NOTE,
                "downgraded_to_counted": {"closed": sorted(CLOSED_COUNTED), "diff": sorted(DIFF_COUNTED),
                                          "records": [c["detail"][:300] for c in counted[:10]], "n": len(counted)},
-               "unproved": ["validity of the local error estimator (hypothesis hloc)", "floating point", "coefficient tables",
+               "coefficient_tables": {"dump": dump, "oracle": tstats, "theorems": TABLE_THEOREMS,
+                                      "generated_file": "lean/AdaptiveModel/Gen/QuadTables.lean",
+                                      "lemma_modules": TABLE_MODULES},
+               "unproved": ["validity of the local error estimator (hypothesis hloc)", "floating point",
+                            "floating-point coefficient tables V, V_inv, T_left, T_right, alpha, gamma, sqrt factor of b_def "
+                            "(the exact tables legendre/newton/xi/scalar products ARE proved)",
+                            "that the doubles xi are the correctly rounded cosines (only a residual bound is proved)",
                             "agreement with algorithm_4 (differential testing only)"]},
         partial=["integ_global_bound_partial", "integ_done_bound_partial", "integ_done_rel_bound_partial",
                  "integ_done_bound_exact_partial", "integ_converged_right_of_valid_estimator"],
@@ -340,6 +657,15 @@ def run(ctx):
 def replay(ctx, path):
     d = json.load(open(path))
     rp = d.get("replay") or {}
+    if rp.get("part") == "tables":
+        fails, stats = tables_oracle()
+        print(json.dumps(stats, default=str)[:1500])
+        hit = [f for f in fails if f["clause"] == rp.get("clause")] or fails
+        for f in hit[:5]:
+            print("FAIL", f["detail"])
+        if not hit:
+            print("no deviation")
+        return 1 if hit else 0
     if rp.get("part") == "closed":
         r = closed_case((rp["family"], rp["seed"], rp.get("cap", 20000)))
     elif rp.get("part") == "diff":
